@@ -185,8 +185,7 @@ class ModbusTransactionManager(object):
                         full = False
                         broadcast = False
                         retries -= 1
-                    addTransaction = partial(self.addTransaction,
-                                             tid=request.transaction_id)
+                    addTransaction = partial(self._addReply, request)
                     self.client.framer.processIncomingPacket(response,
                                                              addTransaction,
                                                              request.unit_id)
@@ -212,6 +211,26 @@ class ModbusTransactionManager(object):
                 _logger.exception(ex)
                 self.client.state = ModbusTransactionState.TRANSACTION_COMPLETE
                 return ex
+
+    def _addReply(self, request, reply):
+        """ Keeps a decoded reply as the answer to `request` only if it is
+        one: on the socket framer it has to carry the transaction id of the
+        request, and on every framer its function code (or that code with the
+        exception bit set). Anything else is a stale or foreign frame.
+
+        :param request: The request that is being answered
+        :param reply: The decoded reply
+        """
+        if isinstance(self.client.framer, ModbusSocketFramer):
+            if reply.transaction_id != request.transaction_id:
+                _logger.debug("Ignoring reply with foreign transaction id "
+                              "{}".format(reply.transaction_id))
+                return
+        if (reply.function_code & 0x7f) != request.function_code:
+            _logger.debug("Ignoring reply with foreign function code "
+                          "{}".format(reply.function_code))
+            return
+        self.addTransaction(reply, tid=request.transaction_id)
 
     def _transact(self, packet, response_length, full=False, broadcast=False):
         """
